@@ -349,7 +349,7 @@ func cmdCheck(args []string) int {
 		if _, ok := coverOf[ob.Name]; !ok {
 			coverNames = append(coverNames, ob.Name)
 		}
-		c := &Obligation{Name: "cover:" + ob.Name, Kind: "vacuity", Func: ob.Func, Assume: ob.Assume, Goal: True, Vacuity: true}
+		c := &Obligation{Name: "cover:" + ob.Name, Kind: "vacuity", Func: ob.Func, Pos: ob.Pos, Assume: ob.Assume, Goal: True, Vacuity: true}
 		coverOf[ob.Name] = append(coverOf[ob.Name], c)
 		vac = append(vac, c)
 	}
@@ -366,7 +366,20 @@ func cmdCheck(args []string) int {
 			for _, c := range coverOf[n] {
 				c.Verdict = "unsat-reported"
 			}
-			toolErrs = append(toolErrs, "vacuity guard failed: no satisfiable path reaches "+n+" (assumptions contradictory)")
+			// On the unchanged tree every monitored event is reachable (checked on every run). When a change makes the code
+			// that an obligation speaks about unreachable under the contracts, the obligation holds only vacuously: it is
+			// reported as not established, under its own name.
+			first := coverOf[n][0]
+			var props []string
+			for _, ob0 := range obs {
+				if strings.HasPrefix(ob0.Name, n+"#") {
+					props = ob0.Props
+					break
+				}
+			}
+			obs = append(obs, &Obligation{Name: n + "#unreachable", Kind: "cover", Func: first.Func, Props: props, Pos: first.Pos, Goal: False,
+				GoalText: "some satisfiable path reaches " + n, Verdict: "unreachable", Solver: "z3-new",
+				SolverNotes: "no satisfiable path reaches this obligation under the contracts: the code it monitors is dead or the assumptions contradict each other"})
 		}
 	}
 	// vacuity guards
